@@ -306,22 +306,31 @@ def qr_find_scp(asce, ctx, msg):
     ds = dsutils.decode(msg.data_set, ctx.supported_ts.is_implicit_VR,
                         ctx.supported_ts.is_little_endian)
 
-    gen = asce.ae.on_receive_find(ctx, ds)
-    for data_set, status in gen:
-        # new message for every response: it is encoded later, by DUL service thread
-        rsp = dimsemessages.CFindRSPMessage()
-        rsp.message_id_being_responded_to = msg.message_id
-        rsp.sop_class_uid = msg.sop_class_uid
-        rsp.status = int(status)
-        rsp.data_set = dsutils.encode(data_set,
-                                      ctx.supported_ts.is_implicit_VR,
-                                      ctx.supported_ts.is_little_endian)
-        asce.send(rsp, ctx.id)
+    pending = (int(statuses.C_FIND_PENDING), int(statuses.C_FIND_PENDING_WARNING))
+    final_status = statuses.SUCCESS
+    try:
+        gen = asce.ae.on_receive_find(ctx, ds)
+        for data_set, status in gen:
+            # new message for every response: it is encoded later, by DUL service thread
+            rsp = dimsemessages.CFindRSPMessage()
+            rsp.message_id_being_responded_to = msg.message_id
+            rsp.sop_class_uid = msg.sop_class_uid
+            rsp.status = int(status)
+            rsp.data_set = dsutils.encode(data_set,
+                                          ctx.supported_ts.is_implicit_VR,
+                                          ctx.supported_ts.is_little_endian)
+            asce.send(rsp, ctx.id)
+            if int(status) not in pending:
+                # final status is provided by the handler itself: it is the
+                # one final response of the operation
+                return
+    except exceptions.EventHandlingError:
+        final_status = statuses.C_FIND_UNABLE_TO_PROCESS
 
     rsp = dimsemessages.CFindRSPMessage()
     rsp.message_id_being_responded_to = msg.message_id
     rsp.sop_class_uid = msg.sop_class_uid
-    rsp.status = int(statuses.SUCCESS)
+    rsp.status = int(final_status)
     asce.send(rsp, ctx.id)
 
 
